@@ -17,9 +17,11 @@ pub struct C14;
 
 pub const KINDS: &[&str] = &[
     "global-function",
+    "global-function-shadowed-by-variable",
     "prefix-operator",
     "infix-operator",
     "setter-operator",
+    "setter-operator-bound-target",
     "postfix-operator",
     "context-function-call",
     "context-function-bare-name",
@@ -42,11 +44,9 @@ pub const ACTIONS: &[&str] = &[
     "execute-on-own-context",
 ];
 
-fn applies(kind: &str, action: &str) -> bool {
-    // locking "the very context it is being evaluated in" is promised for context functions
-    if action.contains("own-context") {
-        return kind.starts_with("context-function");
-    }
+fn applies(_kind: &str, _action: &str) -> bool {
+    // "lock the evaluating context" is spelled out for context functions; for the other kinds
+    // it is the same promise as "may call execute" (on a Context sharing the handle)
     true
 }
 
@@ -61,10 +61,11 @@ fn num(n: i64) -> Value {
 
 fn program(kind: &str) -> (&'static str, Value) {
     match kind {
-        "global-function" | "context-function-call" => ("h(1) + 1", num(43)),
+        "global-function" | "global-function-shadowed-by-variable" | "context-function-call" => ("h(1) + 1", num(43)),
         "prefix-operator" => ("hpre 1", num(42)),
         "infix-operator" => ("1 hin 2", num(42)),
         "setter-operator" => ("x hset 2 ; x", num(42)),
+        "setter-operator-bound-target" => ("v hset 2 ; v", num(42)),
         "postfix-operator" => ("1 hpo", num(42)),
         "context-function-bare-name" => ("h + 1", num(43)),
         _ => ("h = 1 ; h", num(1)),
@@ -75,6 +76,11 @@ fn program(kind: &str) -> (&'static str, Value) {
 fn make_context(kind: &str, action: &'static str) -> Context {
     let mut ctx = Context::new();
     ctx.set_variable("v", num(100));
+    if kind == "global-function-shadowed-by-variable" {
+        ctx.set_variable("h", num(5));
+    }
+    // global handlers reach the evaluating context through this slot
+    *CURRENT.lock().unwrap_or_else(|e| e.into_inner()) = Some(Context { 0: ctx.0.clone() });
     if kind.starts_with("context-function") {
         let handle = ctx.0.clone();
         let k = kind.to_string();
@@ -90,18 +96,22 @@ fn make_context(kind: &str, action: &'static str) -> Context {
 fn register_global(kind: &str, action: &'static str) {
     let k = kind.to_string();
     let body = move || {
-        act(&k, action, None);
+        let own = CURRENT.lock().unwrap_or_else(|e| e.into_inner()).as_ref().map(|c| Context { 0: c.0.clone() });
+        act(&k, action, own);
         Ok(num(42))
     };
     match kind {
-        "global-function" => register_function("h", Arc::new(move |_| body())),
+        "global-function" | "global-function-shadowed-by-variable" => register_function("h", Arc::new(move |_| body())),
         "prefix-operator" => register_prefix_op("hpre", Arc::new(move |_| body())),
         "infix-operator" => register_infix_op("hin", 115, InfixOpType::CALC, InfixOpAssociativity::LEFT, Arc::new(move |_, _| body())),
-        "setter-operator" => register_infix_op("hset", 20, InfixOpType::SETTER, InfixOpAssociativity::RIGHT, Arc::new(move |_, _| body())),
+        "setter-operator" | "setter-operator-bound-target" => register_infix_op("hset", 20, InfixOpType::SETTER, InfixOpAssociativity::RIGHT, Arc::new(move |_, _| body())),
         "postfix-operator" => register_postfix_op("hpo", Arc::new(move |_| body())),
         _ => {}
     }
 }
+
+/// a Context sharing the handle of the context under evaluation
+static CURRENT: std::sync::Mutex<Option<Context>> = std::sync::Mutex::new(None);
 
 /// what the handler does while the outer evaluation is in progress
 fn act(kind: &str, action: &'static str, own: Option<Context>) {
@@ -145,10 +155,10 @@ fn act(kind: &str, action: &'static str, own: Option<Context>) {
         "re-register-itself" => {
             // replace the running handler by an equivalent constant one
             match kind {
-                "global-function" => register_function("h", Arc::new(|_| Ok(num(42)))),
+                "global-function" | "global-function-shadowed-by-variable" => register_function("h", Arc::new(|_| Ok(num(42)))),
                 "prefix-operator" => register_prefix_op("hpre", Arc::new(|_| Ok(num(42)))),
                 "infix-operator" => register_infix_op("hin", 115, InfixOpType::CALC, InfixOpAssociativity::LEFT, Arc::new(|_, _| Ok(num(42)))),
-                "setter-operator" => register_infix_op("hset", 20, InfixOpType::SETTER, InfixOpAssociativity::RIGHT, Arc::new(|_, _| Ok(num(42)))),
+                "setter-operator" | "setter-operator-bound-target" => register_infix_op("hset", 20, InfixOpType::SETTER, InfixOpAssociativity::RIGHT, Arc::new(|_, _| Ok(num(42)))),
                 "postfix-operator" => register_postfix_op("hpo", Arc::new(|_| Ok(num(42)))),
                 _ => {
                     if let Some(mut c) = own {
@@ -160,7 +170,7 @@ fn act(kind: &str, action: &'static str, own: Option<Context>) {
         "lock-own-context-read" => {
             let c = own.expect("own context");
             let n = c.0.lock().map(|g| g.len()).unwrap_or(0);
-            ok(n >= 2, "context entries");
+            ok(n >= 1, "context entries");
             ok(c.get_variable("v") == Some(num(100)), "get_variable");
         }
         "lock-own-context-write" => {
